@@ -280,7 +280,9 @@ PLANS = {
     "C09": {"claim": "That the recurrences q_n=p_n, q_i=p_i-(i+1)q_{i+1} solve q+q'=p (so v q(ln v) is an antiderivative of p(ln v)) and that the quartic special form solves G-G'=p(-x) is model-checked on the coefficient grid for every degree 0..8; on real executions TLC evaluates, with 230-bit ln and exponential tail and exact rational arithmetic, (i) every number of the returned form against the exact recurrence, (ii) F(knot.x)=knot.y both through the library's evaluate and through the form's meaning, (iii) F(b)-F(a) and the same for indefinite() against the exact antiderivative (fundamental theorem, no quadrature), at points far from 1 (1e-300 .. 1e18).",
             "steps": c09, "parallel": 8, "rule": "non-trivial = knot.x, a, b all different from 1 (where ln vanishes and the existing tests live)", "assumptions": ARITH_ASSUME + ["KAPPA = 256: tolerance 256*2^-53 times the construction's own term magnitudes"]},
     "C10": {"claim": "The quartic form's value k + v sum c_j x^j + u v x^5 R(x) is evaluated by the specification with ln and R to ~230 bits (series for |x|<=8, closed form with exact big rationals beyond; functional identities of both model-checked in MC_RealFns) and the real result must lie within 1e-12 times the sum of term magnitudes: every float within 4096 ulps of 1 and of both implementation switch points (located by bisection on the implementation's own x), x in [-40,40], extreme v; v=1 must return k exactly.",
-            "steps": c10, "parallel": 8, "level": "model_checking", "rule": "non-trivial = v # 1; tally 14 counts |v-1| < 2^-40", "assumptions": ARITH_ASSUME},
+            "steps": c10, "parallel": 8, "level": "exploration",
+            "technique": "TLA+ trace validation against a 230-bit specification-level oracle (one pure numeric function: no state space to model-check beyond the oracle's own identities)",
+            "rule": "non-trivial = v # 1 (driver count); tallies = [-, -, quartic events judged, of which |v-1| < 2^-40]", "assumptions": ARITH_ASSUME},
     "C07": {"claim": "Deriv(Indef c)=c, i*Indef(c)[i+1]=c[i], the knot condition and F(b)-F(a)=exact integral are model-checked over exact rationals for degrees 0..7; real integral()/indefinite() results (of PolyK and of Segment<PolyK>) on random and engineered inputs incl. knot.x = +-0 are judged by TLC over exact rationals: zero constant term, every coefficient the correctly rounded c_i/(i+1), vertical shift only, value at the knot, definite integrals, and derivative-back within one ulp.",
             "steps": c07, "rule": "one event per (degree, coefficient vector, knot, two evaluation points); all in-scope events count as non-trivial", "assumptions": ARITH_ASSUME},
     "C08": {"claim": "Linearity of Deriv, Deriv(x^k)=k x^(k-1), lengths and the degree-0 case are model-checked; the integer grid is replayed bit-exactly on derivative() of Poly0..8; random float vectors are judged by TLC (1 ulp, exact for factors 1,2,4,8); Segment/Piecewise derivative keeps count, order and breakpoint bits and differentiates every piece (incl. neighbouring pieces with equal derivatives).",
